@@ -21,7 +21,7 @@ def one(pd):
             return k, ["does not compile"]
         for pr in props:
             e2 = dict(env, PIKEVC_REPO=scratch, PIKEVC_OUT=out, PIKEVC_VERIF="/verif")
-            r = subprocess.run(["/verif/bin/pikevc", "check", pr, "quick"], env=e2, capture_output=True, text=True, timeout=1800)
+            r = subprocess.run(["/verif/bin/check", pr, "quick"], env=e2, capture_output=True, text=True, timeout=1800)
             for l in r.stdout.splitlines():
                 if l.startswith(("VIOLATION", "CHECK-ERROR")):
                     res.append(l.replace(scratch + "/", "")[:330])
